@@ -31,7 +31,7 @@ for pid in ALL:
                 'design_ref': 'DESIGN.md section 4 (%s), rules in section 3' % pid,
             },
             'level_note': 'Trusted base: CPython ast parser; assumptions A1-A4 of DESIGN.md section 7 (A1 is checked on '
-                          'every run). Rules: ' + ', '.join(s['rules']) + '.',
+                          'every run). Rules: ' + ', '.join(r for r, _ in s['rules']) + '.',
             'technique': s.get('technique', 'static analysis: typed call graph, CFG dataflow/typestate, abstract path '
                                             'tables over the AST'),
         })
